@@ -34,8 +34,8 @@ def run(ctx):
             desc = "%s loop@%s kind=%s %s" % (p, lp.get("pump") or lp.get("iterator") or "", lp["kind"], lp["why"])
             R.instance("LOOP-E", desc)
             R.sample({"function": p, "loop_header_bb": lp["header"], "kind": lp["kind"], "verdict": lp["why"], "line": lp["line"]})
-            if lp["kind"] == "pump":
-                n_pump += 1
+            if lp["kind"] == "pump" or lp.get("local_iterator"):
+                n_pump += 1   # a loop over a local iterator that wraps the pump is a pump loop for the vacuity floor
             if lp["kind"] == "iterator":
                 n_iter += 1
             if lp["ok"]:
